@@ -34,7 +34,7 @@ def _execute(record, root):
     names = record["batch"]
     for k, e in enumerate(out):
         c = e["op"]["cfg"]
-        tag = f"solve {k} batch={names} {record['method']} conv={c['conv']} sp2={c['sp2']} eps={c['eps']} uhf={c['uhf']} backward={c.get('backward', 0)} forces={c.get('grad', 'autodiff')} start={e['start']}({e.get('from')}) cap={e['op'].get('cap')}"
+        tag = f"solve {k} batch={names} {record['method']} conv={c['conv']} sp2={c['sp2']} eps={c['eps']} uhf={c['uhf']} backward={c.get('backward', 0)} forces={c.get('grad', 'autodiff')} excited_states_tol={c.get('exc')} start={e['start']}({e.get('from')}) cap={e['op'].get('cap')}"
         stats["solves"] += 1
         if e.get("nonterminating"):
             failures.append(core.fail("nontermination", f"{tag}: no return within {scfsim.LINE_BUDGET} line events of library code; clock ran out at {e['nonterminating']}"))
@@ -61,6 +61,8 @@ def _execute(record, root):
                     continue
             if record["method"] == "PM6":
                 stats["probes"]["pm6_d_molecules_checked"] = stats["probes"].get("pm6_d_molecules_checked", 0) + 1
+            if c.get("exc"):
+                stats["probes"]["molecules_checked_with_excited_states_requested"] = stats["probes"].get("molecules_checked_with_excited_states_requested", 0) + 1
             if c.get("backward"):
                 stats["probes"][f"backward_{c['backward']}_molecules_checked"] = stats["probes"].get(f"backward_{c['backward']}_molecules_checked", 0) + 1
             stats["converged_molecules_checked"] += 1
